@@ -508,8 +508,10 @@ impl Compiler {
         // Leaving the loop (test failure or break) pops the per-iteration scope
         self.emit_pop_scope();
 
-        // Free registers
-        for (_, reg) in var_regs {
+        // Free registers, last allocated first: the allocator hands the most recently freed
+        // register out again, and the statement that follows must get the lowest one (the
+        // value of a program is what its last expression statement left in register 0)
+        for (_, reg) in var_regs.into_iter().rev() {
             self.builder.free_register(reg);
         }
 
